@@ -7,7 +7,6 @@ import (
 	"github.com/buildbuildio/pebbles/requests"
 )
 
-
 // C19: file uploads arrive at the owning service unchanged. Client side: requests.Parse (multipart
 // branch) + injectFile; gateway: planner/executor; downstream: extractFiles / UploadMap / prepareMultipart /
 // fetchFile through the multipart-writer model.
